@@ -12,6 +12,8 @@ func init() {
 			readerDiscardRules(c, "C04")
 			helperReadDataRules(c, "C04")
 			helperReadMessageRules(c, "C04")
+			// the payload the reader delivers is unmasked by CipherReader
+			c02Streams(c)
 		},
 	})
 }
